@@ -212,6 +212,37 @@ def alias_setitem_cases(draw, tier):
     return {'x': x, 'dst': dst, 'src': src, 'view': 'setitem-form-%d' % form}
 
 
+def prop_floordiv(case, stats):
+    """x // y (algopy's division with removable singularities: entries with x_0 = y_0 = 0) must not touch its operands"""
+    x = UTPM(case['x'].copy())
+    y = UTPM(case['y'].copy())
+    bx, by = x.data.tobytes(), y.data.tobytes()
+    try:
+        guard(operator.floordiv, x, y)
+    except Violation:
+        # the value of x // y is not the subject here (and // is not covered by any other property): only operand integrity
+        pass
+    if x.data.tobytes() != bx:
+        raise Violation('x // y modified x')
+    if y.data.tobytes() != by:
+        raise Violation('x // y modified y')
+
+
+@st.composite
+def floordiv_cases(draw, tier):
+    D, P = draw(gen.dims(Dmax=4, Pmax=2))
+    D = max(D, 2)
+    shape = draw(st.sampled_from([(), (2,), (3,)]))
+    x = draw(gen.utpm_data(D, P, shape, gen.nice_floats(-2, 2)))
+    y = draw(gen.utpm_data(D, P, shape, gen.interval_union((0.3, 2.0), (-2.0, -0.3))))
+    # removable singularities: some entries with x_0 = y_0 = 0 and y_1 != 0
+    mask = draw(gen.float_array((P,) + shape, st.sampled_from([0.0, 1.0, 0.0]), sparse=False)) == 0.0
+    x[0][mask] = 0.0
+    y[0][mask] = 0.0
+    y[1][mask & (y[1] == 0)] = 1.0
+    return {'x': x, 'y': y, 'view': 'floordiv:%s' % ('singular' if mask.any() else 'regular')}
+
+
 @st.composite
 def alias_binary_cases(draw, tier, op):
     D, P = draw(gen.dims(Dmax=5 if tier == 'quick' else 7, Pmax=3))
@@ -289,6 +320,8 @@ def buckets(tier):
     for op in INPLACE:
         bl.append(Bucket('alias-inplace:' + op, (lambda op=op: alias_inplace_cases(tier, op)), prop_alias_inplace,
                          {'quick': 60, 'thorough': 1200}, nontrivial=_nt_alias, classes=_cl_alias))
+    bl.append(Bucket('operands:floordiv', (lambda: floordiv_cases(tier)), prop_floordiv, {'quick': 60, 'thorough': 800},
+                     nontrivial=_nt_alias, classes=_cl_alias))
     bl.append(Bucket('alias-setitem', (lambda: alias_setitem_cases(tier)), prop_alias_setitem, {'quick': 60, 'thorough': 1200},
                      nontrivial=_nt_alias, classes=_cl_alias))
     return bl
